@@ -4,7 +4,7 @@
 # scratch worktree /var/tmp/wt-me (never /repo). Default property: the one the
 # store name starts with.
 STORE=$1; shift
-WT=/var/tmp/wt-me
+WT=${WT:-/var/tmp/wt-me}
 export GOFLAGS=-mod=mod GOPROXY=off GOSUMDB=off GOTOOLCHAIN=local
 props=${@:-${STORE%%-*}}
 git -C $WT checkout -q -- . ; git -C $WT clean -fdq; git -C $WT checkout -q --detach "$(git -C /repo rev-parse HEAD)"
